@@ -75,7 +75,10 @@ Section DfsProofs.
 End DfsProofs.
 
 (** * Reference semantics as relations *)
-Definition Ref_step (P : prog) (s s' : state) : Prop := exists a ws, actor_step P a s = Some (s', ws).
+(** a step of the reference: an actor executes its next operation, or the timer of a blocked actor fires
+    ([actor_step]); or, in the timed reading, the clock jumps to the earliest armed timer when nothing else can happen *)
+Definition Ref_step (P : prog) (s s' : state) : Prop :=
+  (exists a ws, actor_step P a s = Some (s', ws)) \/ tick P s = Some s'.
 
 Inductive reachable (P : prog) : state -> Prop :=
 | reachable_init : reachable P (init P)
@@ -84,18 +87,26 @@ Inductive reachable (P : prog) : state -> Prop :=
 Definition terminal (P : prog) (s : state) : Prop := forall s', ~ Ref_step P s s'.
 Definition reachable_terminal (P : prog) (s : state) : Prop := reachable P s /\ terminal P s.
 
+Lemma actor_step_lt : forall P a s r, actor_step P a s = Some r -> (a < length (p_code P))%nat.
+Proof.
+  intros P a s r E. unfold actor_step in E. destruct (st_crash s); [discriminate|].
+  destruct (nth_error (st_a s) a); [|discriminate].
+  destruct (nth_error (p_code P) a) eqn:En; [|discriminate].
+  apply nth_error_Some. congruence.
+Qed.
+
 Lemma succs_spec : forall P s s', In s' (succs P s) <-> Ref_step P s s'.
 Proof.
-  intros P s s'. unfold succs, Ref_step. rewrite in_flat_map. split.
-  - intros (a & _ & Hin). destruct (actor_step P a s) as [[s1 ws]|] eqn:E; [|destruct Hin].
-    destruct Hin as [Hin|[]]. subst. eauto.
-  - intros (a & ws & E). exists a. split.
-    + apply in_seq. split; [lia|]. cbn.
-      unfold actor_step in E. destruct (st_crash s); [discriminate|].
-      destruct (nth_error (st_a s) a); [|discriminate].
-      destruct (nth_error (p_code P) a) eqn:En; [|discriminate].
-      apply nth_error_Some. congruence.
-    + rewrite E. now left.
+  intros P s s'. unfold succs, Ref_step. rewrite in_app_iff, in_flat_map. split.
+  - intros [(a & _ & Hin)|Hin].
+    + destruct (actor_step P a s) as [[s1 ws]|] eqn:E; [|destruct Hin].
+      destruct Hin as [Hin|[]]. subst. left. eauto.
+    + destruct (tick P s) as [s1|]; [|destruct Hin]. destruct Hin as [Hin|[]]. subst. now right.
+  - intros [(a & ws & E)|E].
+    + left. exists a. split.
+      * apply in_seq. split; [lia|]. cbn. eapply actor_step_lt; eauto.
+      * rewrite E. now left.
+    + right. rewrite E. now left.
 Qed.
 
 Lemma reach_reachable : forall P s, reach (succs P) (init P) s <-> reachable P s.
@@ -127,57 +138,76 @@ Proof.
   rewrite (explore_all_correct _ _ _ E). tauto.
 Qed.
 
+(** * A timeout removes exactly the waiter that timed out *)
+Lemma rm_notin : forall a q, ~ In a q -> rm a q = q.
+Proof.
+  intros a q. induction q as [|x r IH]; intros H; cbn [rm filter]; [reflexivity|].
+  destruct (Nat.eqb x a) eqn:E.
+  - apply Nat.eqb_eq in E. subst. exfalso. apply H. now left.
+  - cbn [negb]. f_equal. apply IH. intros Hin. apply H. now right.
+Qed.
+
+Theorem rm_exact : forall a q1 q2, ~ In a q1 -> ~ In a q2 -> rm a (q1 ++ a :: q2) = q1 ++ q2.
+Proof.
+  intros a q1 q2 H1 H2. unfold rm. rewrite filter_app. cbn [filter]. rewrite Nat.eqb_refl. cbn [negb].
+  f_equal; [exact (rm_notin a q1 H1) | exact (rm_notin a q2 H2)].
+Qed.
+
+Lemma upd_nth_same : forall {A} n (x d : A) l, (n < length l)%nat -> nth n (upd n x l) d = x.
+Proof.
+  intros A n x d l. revert n. induction l as [|y r IH]; intros n H; cbn in H; [lia|].
+  destruct n; cbn; [reflexivity | apply IH; lia].
+Qed.
+
+(** the step "the timer of [a], queued on semaphore [i], fires": [a] answers 1 (timed out), the queue of [i] loses
+    exactly [a] and keeps the order of the other waiters, the value is unchanged *)
+Theorem fire_acquire_keeps_order : forall a i d s q1 q2, (i < length (st_s s))%nat ->
+  s_q (nth i (st_s s) dS) = q1 ++ a :: q2 -> ~ In a q1 -> ~ In a q2 ->
+  let '(s', ws) := fire a (AcquireT i d) s in
+  nth i (st_s s') dS = mkS (s_val (nth i (st_s s) dS)) (q1 ++ q2) /\ ws = [a].
+Proof.
+  intros a i d s q1 q2 Hi Hq H1 H2. cbn [fire]. split; [|reflexivity].
+  unfold complete, set_a, set_s. cbn [st_s]. rewrite upd_nth_same by exact Hi.
+  rewrite Hq, rm_exact by assumption. reflexivity.
+Qed.
+
 (** * Deadlocks *)
 Definition unfinished (P : prog) (s : state) (a : nat) : Prop :=
   exists ac ops, nth_error (st_a s) a = Some ac /\ nth_error (p_code P) a = Some ops /\ (a_pc ac < length ops)%nat.
 
 (** A reference deadlock: the run did not crash, some actor still has operations to execute, and every such actor is
-    blocked in the wait queue of a synchronisation object. *)
+    blocked in the wait queue of a synchronisation object without any timer armed (a sleeping actor or a timed
+    acquisition will be released by its timer: never a deadlock). *)
 Definition Ref_deadlock (P : prog) (s : state) : Prop :=
   st_crash s = false /\ (exists a, unfinished P s a) /\
-  forall a ac, unfinished P s a -> nth_error (st_a s) a = Some ac -> a_blk ac = true.
+  forall a ac, unfinished P s a -> nth_error (st_a s) a = Some ac -> a_blk ac = true /\ a_due ac = None.
 
 Lemma actor_step_none : forall P a s, actor_step P a s = None <->
   st_crash s = true \/ nth_error (st_a s) a = None \/ nth_error (p_code P) a = None \/
   exists ac ops, nth_error (st_a s) a = Some ac /\ nth_error (p_code P) a = Some ops /\
-                 (a_blk ac = true \/ (length ops <= a_pc ac)%nat).
+                 ((length ops <= a_pc ac)%nat \/
+                  (a_blk ac = true /\ (a_due ac = None \/ exists t, a_due ac = Some t /\ due_ok P s t = false))).
 Proof.
   intros P a s. unfold actor_step.
   destruct (st_crash s); [split; auto|].
   destruct (nth_error (st_a s) a) as [ac|] eqn:Ea; [|split; auto].
   destruct (nth_error (p_code P) a) as [ops|] eqn:Ep; [|split; auto].
-  destruct (a_blk ac) eqn:Eb.
-  - split; auto. intros _. right. right. right. exists ac, ops. auto.
-  - destruct (nth_error ops (a_pc ac)) as [o|] eqn:Eo.
+  destruct (nth_error ops (a_pc ac)) as [o|] eqn:Eo.
+  - assert (Hlt : (a_pc ac < length ops)%nat) by (apply nth_error_Some; congruence).
+    destruct (a_blk ac) eqn:Eb.
+    + destruct (a_due ac) as [t|] eqn:Ed.
+      * destruct (due_ok P s t) eqn:Eok.
+        -- split; [discriminate|].
+           intros [H|[H|[H|(ac' & ops' & H1 & H2 & H3)]]]; try discriminate.
+           inv H1. inv H2. destruct H3 as [H3|(_ & [H3|(t' & H3 & H4)])]; [lia | congruence | congruence].
+        -- split; auto. intros _. right. right. right. exists ac, ops. repeat split; auto.
+           right. split; auto. right. exists t. auto.
+      * split; auto. intros _. right. right. right. exists ac, ops. repeat split; auto.
     + split; [discriminate|].
       intros [H|[H|[H|(ac' & ops' & H1 & H2 & H3)]]]; try discriminate.
-      inv H1. inv H2. destruct H3 as [H3|H3]; [congruence|].
-      apply nth_error_None in H3. congruence.
-    + split; auto. intros _. right. right. right. exists ac, ops. repeat split; auto.
-      right. now apply nth_error_None.
-Qed.
-
-Theorem deadlock_iff : forall P s, st_crash s = false ->
-  ((terminal P s /\ exists a, unfinished P s a) <-> Ref_deadlock P s).
-Proof.
-  intros P s Hc. split.
-  - intros (Ht & Hu). split; [exact Hc|]. split; [exact Hu|].
-    intros a ac (ac' & ops & H1 & H2 & H3) Hac. rewrite H1 in Hac. inv Hac.
-    destruct (actor_step P a s) as [[s' ws]|] eqn:E.
-    + exfalso. apply (Ht s'). exists a, ws. exact E.
-    + apply actor_step_none in E.
-      destruct E as [E|[E|[E|(ac' & ops' & E1 & E2 & E3)]]]; try congruence.
-      rewrite H1 in E1. inv E1. rewrite H2 in E2. inv E2. destruct E3; [assumption | lia].
-  - intros (_ & Hu & Hb). split; [|exact Hu].
-    intros s' (a & ws & E).
-    unfold actor_step in E. rewrite Hc in E.
-    destruct (nth_error (st_a s) a) as [ac|] eqn:Ea; [|discriminate].
-    destruct (nth_error (p_code P) a) as [ops|] eqn:Ep; [|discriminate].
-    destruct (a_blk ac) eqn:Eb; [discriminate|].
-    destruct (nth_error ops (a_pc ac)) eqn:Eo; [|discriminate].
-    assert (Hlt : (a_pc ac < length ops)%nat) by (apply nth_error_Some; congruence).
-    assert (Hub : a_blk ac = true) by (apply (Hb a ac); [exists ac, ops; auto | exact Ea]).
-    congruence.
+      inv H1. inv H2. destruct H3 as [H3|(H3 & _)]; [lia | congruence].
+  - split; auto. intros _. right. right. right. exists ac, ops. repeat split; auto.
+    left. now apply nth_error_None.
 Qed.
 
 Lemma unfinished_b_spec : forall P s a, unfinished_b P s a = true <-> unfinished P s a.
@@ -188,6 +218,95 @@ Proof.
   rewrite Nat.ltb_lt. split.
   - intros H. exists ac, ops. auto.
   - intros (ac' & ops' & H1 & H2 & H3). inv H1. inv H2. exact H3.
+Qed.
+
+Lemma quiescent_spec : forall P s, quiescent P s = true <-> forall a, actor_step P a s = None.
+Proof.
+  intros P s. unfold quiescent. rewrite forallb_forall. split.
+  - intros H a. destruct (actor_step P a s) as [r|] eqn:E; [|reflexivity].
+    assert (Hin : In a (seq 0 (length (p_code P)))).
+    { apply in_seq. split; [lia|]. cbn. eapply actor_step_lt; eauto. }
+    specialize (H a Hin). rewrite E in H. discriminate.
+  - intros H a _. now rewrite H.
+Qed.
+
+Lemma dues_in : forall P s a t, due_of P s a = Some t -> In t (dues P s).
+Proof.
+  intros P s a t H. unfold dues. apply in_flat_map. exists a. split.
+  - apply in_seq. split; [lia|]. cbn. unfold due_of in H.
+    destruct (nth_error (st_a s) a) as [ac|] eqn:Ea; [|discriminate].
+    destruct (unfinished_b P s a) eqn:Eu; [|discriminate].
+    apply unfinished_b_spec in Eu. destruct Eu as (? & ops & _ & Hp & _). apply nth_error_Some. congruence.
+  - rewrite H. now left.
+Qed.
+
+Lemma dues_nil : forall P s, dues P s = [] <-> forall a, due_of P s a = None.
+Proof.
+  intros P s. split.
+  - intros H a. destruct (due_of P s a) as [t|] eqn:E; [|reflexivity].
+    apply dues_in in E. rewrite H in E. destruct E.
+  - intros H. unfold dues. destruct (flat_map _ _) as [|t r] eqn:E; [reflexivity|].
+    assert (Hin : In t (t :: r)) by now left. rewrite <- E in Hin. apply in_flat_map in Hin.
+    destruct Hin as (a & _ & Hin). rewrite H in Hin. destruct Hin.
+Qed.
+
+(** when time can pass: timed reading, no crash, nobody can step, some unfinished blocked actor has a timer *)
+Lemma tick_some : forall P s, (exists s', tick P s = Some s') <->
+  st_crash s = false /\ p_timed P = true /\ (forall a, actor_step P a s = None) /\ exists a t, due_of P s a = Some t.
+Proof.
+  intros P s. unfold tick. split.
+  - intros (s' & H).
+    destruct (st_crash s); [discriminate|]. destruct (p_timed P); [|discriminate].
+    destruct (quiescent P s) eqn:Eq; [|discriminate]. cbn in H.
+    repeat split; auto.
+    + now apply quiescent_spec.
+    + destruct (dues P s) as [|t r] eqn:Ed; [discriminate|].
+      assert (Hin : In t (dues P s)) by (rewrite Ed; now left).
+      unfold dues in Hin. apply in_flat_map in Hin. destruct Hin as (a & _ & Hin).
+      destruct (due_of P s a) as [t'|] eqn:E; [|destruct Hin]. eauto.
+  - intros (Hc & Ht & Hq & a & t & Hd).
+    rewrite Hc, Ht. apply quiescent_spec in Hq. rewrite Hq. cbn.
+    destruct (dues P s) as [|t' r] eqn:Ed.
+    + apply dues_in in Hd. rewrite Ed in Hd. destruct Hd.
+    + eauto.
+Qed.
+
+Theorem deadlock_iff : forall P s, st_crash s = false ->
+  ((terminal P s /\ exists a, unfinished P s a) <-> Ref_deadlock P s).
+Proof.
+  intros P s Hc. split.
+  - intros (Ht & Hu). split; [exact Hc|]. split; [exact Hu|].
+    assert (Hq : forall a, actor_step P a s = None).
+    { intros a. destruct (actor_step P a s) as [[s' ws]|] eqn:E; [|reflexivity].
+      exfalso. apply (Ht s'). left. exists a, ws. exact E. }
+    intros a ac (ac' & ops & H1 & H2 & H3) Hac. rewrite H1 in Hac. inv Hac.
+    pose proof (Hq a) as E. apply actor_step_none in E.
+    destruct E as [E|[E|[E|(ac' & ops' & E1 & E2 & E3)]]]; try congruence.
+    rewrite H1 in E1. inv E1. rewrite H2 in E2. inv E2.
+    destruct E3 as [E3|(Eb & [Ed|(t & Ed & Eok)])]; [lia | auto |].
+    (* an armed timer that may not fire yet: timed reading, and then the clock can tick *)
+    exfalso.
+    assert (Htm : p_timed P = true).
+    { unfold due_ok in Eok. destruct (p_timed P); [reflexivity | discriminate]. }
+    assert (Hd : due_of P s a = Some t).
+    { unfold due_of. rewrite H1.
+      assert (Hub : unfinished_b P s a = true) by (apply unfinished_b_spec; exists ac', ops'; auto).
+      rewrite Hub, Eb. exact Ed. }
+    destruct (proj2 (tick_some P s)) as (s' & Hs'); [repeat split; eauto|].
+    apply (Ht s'). now right.
+  - intros (_ & Hu & Hb). split; [|exact Hu].
+    intros s' [(a & ws & E)|E].
+    + unfold actor_step in E. rewrite Hc in E.
+      destruct (nth_error (st_a s) a) as [ac|] eqn:Ea; [|discriminate].
+      destruct (nth_error (p_code P) a) as [ops|] eqn:Ep; [|discriminate].
+      destruct (nth_error ops (a_pc ac)) eqn:Eo; [|discriminate].
+      assert (Hlt : (a_pc ac < length ops)%nat) by (apply nth_error_Some; congruence).
+      destruct (Hb a ac) as (Hub & Hud); [exists ac, ops; auto | exact Ea |].
+      rewrite Hub, Hud in E. discriminate.
+    + destruct (proj1 (tick_some P s)) as (_ & _ & _ & a & t & Hd); [eauto|].
+      unfold due_of in Hd. destruct (nth_error (st_a s) a) as [ac|] eqn:Ea; [|discriminate].
+      destruct (unfinished_b P s a) eqn:Eu; [|discriminate]. apply unfinished_b_spec in Eu.
+      destruct (Hb a ac Eu Ea) as (Hub & Hud). rewrite Hub, Hud in Hd. discriminate.
 Qed.
 
 Theorem deadlock_b_spec : forall P s, deadlock_b P s = true <-> Ref_deadlock P s.
@@ -205,8 +324,13 @@ Theorem replay_reachable : forall P sched s s', reachable P s -> replay P sched 
 Proof.
   intros P sched. induction sched as [|a r IH]; intros s s' Hr H; cbn [replay] in H.
   - inv H. exact Hr.
-  - destruct (actor_step P a s) as [[s1 ws]|] eqn:E; [|discriminate].
-    apply (IH s1 s'); [|exact H]. apply (reachable_step P s s1 Hr). exists a, ws. exact E.
+  - destruct (step_or_tick P a s) as [[s1 ws]|] eqn:E; [|discriminate].
+    apply (IH s1 s'); [|exact H]. unfold step_or_tick in E.
+    destruct (actor_step P a s) as [r0|] eqn:E1.
+    + inv E. apply (reachable_step P s s1 Hr). left. exists a, ws. exact E1.
+    + destruct (tick P s) as [s0|] eqn:E2; [|discriminate].
+      apply (reachable_step P s0 s1); [|left; exists a, ws; exact E].
+      apply (reachable_step P s s0 Hr). now right.
 Qed.
 
 Lemma handle_all_replay : forall P l s next tr s' next' tr',
@@ -218,7 +342,7 @@ Proof.
   - destruct (actor_step P a s) as [[s1 ws]|] eqn:E.
     + destruct (IH _ _ _ _ _ _ H) as (sch & H1 & H2). exists (a :: sch). split.
       * rewrite H1, <- app_assoc. reflexivity.
-      * cbn [replay]. rewrite E. exact H2.
+      * cbn [replay]. unfold step_or_tick. rewrite E. exact H2.
     + eauto.
 Qed.
 
@@ -226,7 +350,7 @@ Lemma replay_app : forall P a b s s1 s2, replay P a s = Some s1 -> replay P b s1
 Proof.
   intros P a. induction a as [|x r IH]; intros b s s1 s2 H1 H2; cbn [replay app] in *.
   - inv H1. exact H2.
-  - destruct (actor_step P x s) as [[s' ws]|]; [|discriminate]. eauto.
+  - destruct (step_or_tick P x s) as [[s' ws]|]; [|discriminate]. eauto.
 Qed.
 
 Lemma sched_run_replay : forall fuel P l s tr s' tr',
